@@ -161,8 +161,12 @@ class RTDCWriter:
         # set event count
         feats = sorted(self.h5file.get("events", {}).keys())
         if feats:
-            self.h5file.attrs["experiment:event count"] = len(
-                self.h5file["events"][feats[0]])
+            obj0 = self.h5file["events"][feats[0]]
+            if feats[0] == "trace" and len(obj0):
+                # The "trace" group holds one dataset per trace; its
+                # length is the number of traces, not of events.
+                obj0 = obj0[sorted(obj0.keys())[0]]
+            self.h5file.attrs["experiment:event count"] = len(obj0)
         else:
             raise ValueError(f"No features in '{self.path}'!")
 
